@@ -36,7 +36,7 @@ ASSUMPTIONS = [
     "get_paths / Part.segments / pretty_segments / add_segments are documented to store Segment objects on the part",
 ]
 COMPONENTS = {"real": ["partitura.score: add_segments, get_paths, Path, ScoreVariant.create_variant_part, unfold_part_maximal/minimal, iter_unfolded_parts, new_part_from_path", "utils.generic.ReplaceRefMixin", "utils.music.update_note_ids_after_unfolding"], "stub": ["none (no I/O in this world)"]}
-PROBES = ("unfold_by_alignment", "unfold_of_an_unfolded_part", "repeat_moved_between_unfoldings", "score_vs_part", "same_call_twice_with_other_between", "tie_across_segment_boundary", "slur_across_segment_boundary", "volta", "volta3", "navigation", "two_repeats", "no_structure", "variant_count_checked", "partial_generator")
+PROBES = ("unfold_by_alignment", "result_edited", "unfold_of_an_unfolded_part", "repeat_moved_between_unfoldings", "score_vs_part", "same_call_twice_with_other_between", "tie_across_segment_boundary", "slur_across_segment_boundary", "volta", "volta3", "navigation", "two_repeats", "no_structure", "variant_count_checked", "partial_generator")
 
 
 # ----------------------------------------------------------------------------
@@ -62,7 +62,7 @@ def generate(seed, tier, cfg):
             ops.append(dict(o.choice(ops)))  # the same call again, with others in between
             continue
         if x < 0.3:
-            ops.append({"k": "max", "update_ids": o.random() < 0.6, "ignore_leaps": o.random() < 0.7})
+            ops.append({"k": "max", "update_ids": o.random() < 0.6, "ignore_leaps": o.random() < 0.7, "edit_result": o.random() < 0.3})
         elif x < 0.5:
             ops.append({"k": "min"})
         elif x < 0.6:
@@ -398,6 +398,17 @@ def execute(case, keep_log=False):
                 r = S.unfold_part_maximal(arg, update_ids=op["update_ids"], ignore_leaps=op["ignore_leaps"])
                 rp = r.parts[0] if isinstance(r, S.Score) else r
                 outcome = check_part(res, ap, part, rp, "max", "max", op["update_ids"], orig_objs)
+                if op.get("edit_result") and outcome is not None:
+                    # the result is an independent part: an edit of it (a slur between its first two notes) reaches
+                    # neither the original nor the copies of other visits
+                    ns = sorted(rp.iter_all(S.Note), key=lambda n: (n.start.t, n.id or ""))
+                    if len(ns) >= 2 and ns[1].end is not None:
+                        sl = S.Slur(ns[0], ns[1])
+                        rp.add(sl, ns[0].start.t, ns[1].end.t)
+                        res.probe("result_edited")
+                        holders = [n.id for n in rp.iter_all(S.Note, include_subclasses=True) if sl in (n.slur_starts or []) or sl in (n.slur_stops or [])]
+                        if sorted(holders) != sorted([ns[0].id, ns[1].id]):
+                            res.violation("U3-references", "max", "a slur added between notes %s and %s of the unfolded part is listed by notes %s" % (ns[0].id, ns[1].id, holders), site="shared-reference-list")
                 if case["knobs"]["via_score"] and outcome is not None:
                     # the same part unfolded directly (fresh object) must follow the same path
                     fresh = build.build_score(asc, with_pages=True).parts[0]
